@@ -10,11 +10,15 @@
        Forall (Forall (fun b => b < 256)) chunks ->
        Forall (fun br => snd br <> RPanic /\ snd br <> RStuck) (erun bufsize chunks term reads).
 
-   Hypotheses (Props defined in EngineSafetyHeader.v, both statements about the model only; see
-   EngineSafetyLongFit.v / EngineSafetyRestart.v for what is proved of them):
+   Hypotheses (Props defined in EngineSafetyHeader.v, both statements about the model only; BOTH
+   ARE PROVED, in EngineSafetyLongFit.v and EngineSafetyRestart.v; EngineSafetyFinal.v states the
+   resulting unconditional theorem erun_safe):
      LongCodesFit           the long-code groups of an accepted literal/length code fit
                             longCodeLookup[1264]: encodeLongCodes never reports an index out of
-                            range (the table-size claim inherited from ISA-L);
+                            range (the table-size claim inherited from ISA-L; proved with a
+                            certified dynamic programme: the total is at most 1234, and 1196 is
+                            reached -- note the group of the all-ones prefix also collects the
+                            codes already marked with invalidCodeValue);
      HeaderRestartMonotone  when a block header is re-parsed from the 328-byte staging buffer plus
                             new input, the attempt loads at least the staged bytes, and if it
                             succeeds it has consumed all their bits (this is what makes
@@ -44,8 +48,14 @@
      EngineSafetyExpand  setAndExpandLitLenHuffCode (counting sort: litlen_sorted)
      EngineSafetyLitLen  genForLitLen (singles/pairs/triples/long codes), given long_groups_fit
      EngineSafetyDecode  decodeLiteralBlock, decodeHuffman (window, roll-back, overflow carry, fuel)
+     EngineSafetySuffix  the remaining input is always a suffix of the previous one
      EngineSafetyHeader  setupDynamicHeader, prepareForLitBlock, tryDecodeHeader, readHeader
-     EngineSafety        decomp_loop, decomperss, step, Read, erun (this file) *)
+     EngineSafety        decomp_loop, decomperss, step, Read, erun (this file)
+     EngineSafetyRestart*  proof of HeaderRestartMonotone (and its refutation without the byte bound)
+     EngineSafetyLongFit*  proof of LongCodesFit
+     EngineSafetyFinal   erun_safe: the theorem without hypotheses
+   Not covered (no check in the model): the Go index tempCodeList[tempCodeLength] (array of 512)
+   in encodeLongCodes; a group holds at most 256 codes, see EngineSafetyLongFit.v. *)
 From Verif Require Import Engine EngineTables.
 From Verif Require Import Base EngineSafetyBase EngineSafetyBits EngineSafetyBuf EngineSafetyInv
   EngineSafetyDecode EngineSafetyHeader.
